@@ -6,7 +6,7 @@ use hifitime::{Duration, TimeUnits, Unit};
 
 pub fn meta() -> Meta {
     Meta {
-        rule: "events = one constructor or accessor call: from_parts(raw i16,u64), from_total_nanoseconds(i128)/total_nanoseconds, from_truncated_nanoseconds(i64), try_truncated_nanoseconds/truncated_nanoseconds, n*Unit / Unit*n / n.unit() for i64 n and all nine units, compose(sign, 7 fields), std::time::Duration conversions. Expected: canonical-form predicate on every observed duration, read-back == clamp(input integer), total == c*NPC+ns. Generation: boundary lattice (+-k centuries +-d, i64 limits, beyond +-MAX) and stratified random i128 / (i16,u64) / i64 / field tuples. Non-trivial = ns >= one century given to the constructor, century field at an i16 limit, count beyond the bounds, duration below -1 century read back, i64 accessor between 2 and 3 centuries or beyond i64, i64 unit product overflowing i64, composed field >= 2^32, std negative/huge; distinct = distinct (op,input) hashes among those. Round 6: (producers) the (centuries, nanoseconds) form of what about 120 public operations return for one (a, b, scale, i64, f64) tuple - Duration arithmetic and rounding, unit products, float constructors, text / serde / std round trips, the duration field of every Epoch operation and every duration-valued view - must be canonical; (aliasing) counts whose century number is ordinary modulo 2^15..2^64, i64 / unit / field / std values that alias a small value modulo 2^8..2^48. Rounds 7-9: totals next to the 64-bit thresholds decomposed into in-range calendar fields; the full cross of the special values of the seven composed fields x eleven day counts x sign (171 875 tuples).",
+        rule: "events = one constructor or accessor call: from_parts(raw i16,u64), from_total_nanoseconds(i128)/total_nanoseconds, from_truncated_nanoseconds(i64), try_truncated_nanoseconds/truncated_nanoseconds, n*Unit / Unit*n / n.unit() for i64 n and all nine units, compose(sign, 7 fields), std::time::Duration conversions. Expected: canonical-form predicate on every observed duration, read-back == clamp(input integer), total == c*NPC+ns. Generation: boundary lattice (+-k centuries +-d, i64 limits, beyond +-MAX) and stratified random i128 / (i16,u64) / i64 / field tuples. Non-trivial = ns >= one century given to the constructor, century field at an i16 limit, count beyond the bounds, duration below -1 century read back, i64 accessor between 2 and 3 centuries or beyond i64, i64 unit product overflowing i64, composed field >= 2^32, std negative/huge; distinct = distinct (op,input) hashes among those. Round 6: (producers) the (centuries, nanoseconds) form of what about 120 public operations return for one (a, b, scale, i64, f64) tuple - Duration arithmetic and rounding, unit products, float constructors, text / serde / std round trips, the duration field of every Epoch operation and every duration-valued view - must be canonical; (aliasing) counts whose century number is ordinary modulo 2^15..2^64, i64 / unit / field / std values that alias a small value modulo 2^8..2^48. Rounds 7-9: totals next to the 64-bit thresholds decomposed into in-range calendar fields; the full cross of the special values of the seven composed fields x twenty-four day counts x sign (375 000 tuples).",
         assumptions: &["the canonical-form convention is the one in the statement (0 <= ns < one century; only MAX carries a full century)", "Rust i128 arithmetic"],
         mandatory: &["parts/ns>=century", "parts/cent-limit", "total/beyond-bounds", "total/below-minus-one-century", "i64/2-to-3-centuries", "i64/beyond-i64", "i64/within-2-centuries-negative", "unit/i64-product-overflow", "compose/large-field", "compose/negative", "std/negative", "std/huge"],
         thorough_scale: 40,
@@ -513,7 +513,13 @@ pub fn run(cfg: &Cfg, rep: &mut Rep) {
     // fields at the ends of their usual ranges and one past them, day counts at the 64-bit and century thresholds of the
     // total. A fast path guarded on "the usual ranges" or on the day count alone is entered and left on exactly these.
     if !cfg.fuzz {
-        let days = [0u64, 1, 36_524, 36_525, 73_049, 106_751, 106_752, 213_503, 213_504, (1 << 25) + 1, (1 << 53) - 1];
+        // (round 10: and day counts at the far end - the last whole centuries of the range, where "the day count alone is
+        // already past the end" is nearly true)
+        let days = [
+            0u64, 1, 36_524, 36_525, 73_049, 106_751, 106_752, 213_503, 213_504, (1 << 25) + 1, (1 << 53) - 1,
+            100 * 36_525, 100 * 36_525 - 1, 32_766 * 36_525 - 1, 32_766 * 36_525, 32_767 * 36_525 - 1, 32_767 * 36_525, 32_767 * 36_525 + 1,
+            32_767 * 36_525 + 18_262, 32_768 * 36_525 - 1, 32_768 * 36_525, 32_768 * 36_525 + 1, u32::MAX as u64, 1 << 31,
+        ];
         let usual = [23u64, 59, 59, 999, 999, 999];
         for &d in &days {
             for code in 0..15_625u32 {
